@@ -16,7 +16,7 @@ VARIABLES tid
 vars == <<tid>>
 
 R == Runs[tid]
-Vars == {"x", "y", "z", "f", "i"}
+Vars == {"x", "y", "z", "f", "i", "a0", "a1", "a2", "m00", "m01", "m10", "m11"}
 Env0 == [n \in Vars |-> IF n \in DOMAIN R.inputs THEN R.inputs[n] ELSE 0]
 
 Init == tid \in 1..Len(Runs)
